@@ -95,6 +95,25 @@ func (st *SymbolTable) reset() {
 
 }
 
+// clone returns a copy of the symbol table's own state, symbols included.
+func (st *SymbolTable) clone() *SymbolTable {
+	c := *st
+	c.store = make(map[string]*Symbol, len(st.store))
+	for name, symbol := range st.store {
+		s := *symbol
+		c.store[name] = &s
+	}
+	if st.disabledBuiltins != nil {
+		c.disabledBuiltins = make(map[string]struct{}, len(st.disabledBuiltins))
+		for name := range st.disabledBuiltins {
+			c.disabledBuiltins[name] = struct{}{}
+		}
+	}
+	c.frees = append([]*Symbol(nil), st.frees...)
+	c.shadowedBuiltins = append([]string(nil), st.shadowedBuiltins...)
+	return &c
+}
+
 // Fork creates a new symbol table for a new scope.
 func (st *SymbolTable) Fork(block bool) *SymbolTable {
 	fork := NewSymbolTable()
